@@ -149,8 +149,12 @@ Definition enc_string (bs : bytes) (st : strtab) : enc_result :=
 (* serializer/mod.rs:279-292 *)
 Definition enc_dedup (bs : bytes) (st : strtab) : enc_result :=
   match str_id bs st with
-  | Some id => Ok (write_var_i32 (- Z.of_N id), st)
-  | None => enc_string bs (st ++ [bs])
+  | Some id =>
+      (* ids are i32: one above i32::MAX cannot have been assigned *)
+      if id <? 2 ^ 31 then Ok (write_var_i32 (- Z.of_N id), st) else Panic POverflow
+  | None =>
+      (* StringId::next: `self.0 += 1` on an i32 *)
+      if nlen st + 1 <? 2 ^ 31 then enc_string bs (st ++ [bs]) else Panic POverflow
   end.
 
 (* serializer/mod.rs:341-401, the byte layout *)
@@ -353,6 +357,7 @@ Definition enc_enum (encf : ty -> encoder) (tyname : name) (m : emeta) (v : val)
       | None => Err EIllTyped
       | Some (idx, var) =>
           if v_transient var then Err (ESerTransientCtor (v_name var) tyname)
+          else if 2 ^ 32 <=? idx then Err EIllTyped      (* `case_idx as u32`: no such enum exists *)
           else
             '(b, st) <- enc_record encf (v_rec var) payload st ;;
             Ok (0 :: write_var_u32 idx ++ b, st)
